@@ -193,33 +193,44 @@ Proof.
     unfold g_arith, g_arith_num; views; rewrite ?Ia, ?Fa, ?Ib, ?Fb; reflexivity.
 Qed.
 
-(* ordering comparisons: guarded = generic on numbers; on non-numbers guarded says false where
-   the generic operation raises TypeError *)
-Lemma guarded_ord_iig_sound (hv : heapview) (o : cop) (a b : N) :
-  is_ord o = true -> a < W64 -> b < W64 -> is_num a = true -> is_num b = true ->
-  gd_cmp_iig hv o a b = g_cmp hv o a b.
+(* ordering comparisons (after fix 5bb247f the non-numeric case falls back to the generic
+   comparison): ...IIG = generic on EVERY pair of words, ...FFG unless both operands are ints
+   (then it compares the promoted floats: same answer, but that needs a float fact) *)
+Lemma guarded_ord_iig_total (hv : heapview) (o : cop) (a b : N) :
+  is_ord o = true -> a < W64 -> b < W64 -> gd_cmp_iig hv o a b = g_cmp hv o a b.
 Proof.
-  intros Ho Ha Hb Na Nb. unfold is_num in *. unfold gd_cmp_iig, g_cmp, g_ord. views.
-  kinds a b Ha Hb; try discriminate; destruct o; try discriminate; reflexivity.
+  intros Ho Ha Hb. unfold gd_cmp_iig. unfold g_cmp at 2. unfold g_ord. views.
+  kinds a b Ha Hb; destruct o; try discriminate; try reflexivity;
+    unfold g_cmp, g_ord; views; rewrite ?Ia, ?Fa, ?Ib, ?Fb; reflexivity.
 Qed.
 
 Lemma guarded_ord_ffg_sound (hv : heapview) (o : cop) (a b : N) :
-  is_ord o = true -> a < W64 -> b < W64 -> is_num a = true -> is_num b = true ->
-  is_int a && is_int b = false ->
+  is_ord o = true -> a < W64 -> b < W64 -> is_int a && is_int b = false ->
   gd_cmp_ffg hv o a b = g_cmp hv o a b.
 Proof.
-  intros Ho Ha Hb Na Nb Hn. unfold is_num in *. unfold gd_cmp_ffg, g_cmp, g_ord. views.
-  kinds a b Ha Hb; try discriminate; destruct o; try discriminate; reflexivity.
+  intros Ho Ha Hb Hn. unfold gd_cmp_ffg. unfold g_cmp at 2. unfold g_ord. views.
+  kinds a b Ha Hb; try discriminate; destruct o; try discriminate; try reflexivity;
+    unfold g_cmp, g_ord; views; rewrite ?Ia, ?Fa, ?Ib, ?Fb; reflexivity.
 Qed.
 
-Lemma guarded_ord_nonnum (hv : heapview) (o : cop) (a b : N) :
-  is_ord o = true -> a < W64 -> b < W64 -> is_num a && is_num b = false ->
-  gd_cmp_iig hv o a b = ROk (v_bool false) /\ gd_cmp_ffg hv o a b = ROk (v_bool false)
-  /\ g_cmp hv o a b = RErr ETypeError.
-Proof.
-  intros Ho Ha Hb Hn. unfold is_num in *. unfold gd_cmp_iig, gd_cmp_ffg, gd_cmp_fallback, g_cmp, g_ord. views.
-  kinds a b Ha Hb; try discriminate; destruct o; try discriminate; repeat split; reflexivity.
-Qed.
+(* the behaviour before fix 5bb247f, kept as a statement about the OLD definition only *)
+Definition gd_cmp_iig_old (hv : heapview) (o : cop) (a b : N) : vres :=
+  match as_int a, as_int b with
+  | Some l, Some r => ROk (v_bool (int_cmp o l r))
+  | _, _ =>
+    match promote a, promote b with
+    | Some x, Some y => ROk (v_bool (float_cmp o x y))
+    | _, _ => match o with
+              | CEq => ROk (v_bool (g_eq hv a b)) | CNe => ROk (v_bool (negb (g_eq hv a b)))
+              | _ => ROk (v_bool false)
+              end
+    end
+  end.
+Lemma old_guarded_ord_answered_false :
+  gd_cmp_iig_old no_heap CLt v_null (v_int 1) = ROk (v_bool false) /\
+  g_cmp no_heap CLt v_null (v_int 1) = RErr ETypeError /\
+  gd_cmp_iig no_heap CLt v_null (v_int 1) = RErr ETypeError.
+Proof. vm_compute. repeat split; reflexivity. Qed.
 
 (* Eq / Ne: guarded = generic when no operand is a float (ints as created by Value::int, or a
    non-number on either side) *)
@@ -235,8 +246,8 @@ Lemma guarded_eq_nonnum (hv : heapview) (o : cop) (a b : N) :
   is_ord o = false -> a < W64 -> b < W64 -> is_num a && is_num b = false ->
   gd_cmp_iig hv o a b = g_cmp hv o a b /\ gd_cmp_ffg hv o a b = g_cmp hv o a b.
 Proof.
-  intros Ho Ha Hb Hn. unfold is_num in *. unfold gd_cmp_iig, gd_cmp_ffg, gd_cmp_fallback, g_cmp. views.
-  kinds a b Ha Hb; try discriminate; destruct o; try discriminate; split; reflexivity.
+  intros Ho Ha Hb Hn. unfold is_num in *. unfold gd_cmp_iig, gd_cmp_ffg. views.
+  kinds a b Ha Hb; try discriminate; split; reflexivity.
 Qed.
 
 (* ------------------------------------------------------------------ counterexamples *)
@@ -276,12 +287,12 @@ Lemma ltimm_misreads_float :
   /\ t_cmp_imm CLt 0x401E000000000000 5 = ROk (v_bool true).
 Proof. vm_compute. split; reflexivity. Qed.
 
-(* guarded: DivFFG 7 2 = 3.5 but Div 7 2 = 3 ; LtIIG null 1 = false but Lt null 1 = TypeError;
+(* guarded: DivFFG 7 2 = 3.5 but Div 7 2 = 3 ; LtIIG null 1 = Lt null 1 = TypeError (since 5bb247f);
    EqFF / EqIIG on the canonical NaN say false, generic Eq (raw-bits shortcut) says true *)
 Lemma guarded_counterexamples :
   gd_arith_ffg no_heap ADiv (v_int 7) (v_int 2) = ROk W_3_5 /\
   g_arith no_heap ADiv (v_int 7) (v_int 2) = ROk (v_int 3) /\
-  gd_cmp_iig no_heap CLt v_null (v_int 1) = ROk (v_bool false) /\
+  gd_cmp_iig no_heap CLt v_null (v_int 1) = RErr ETypeError /\
   g_cmp no_heap CLt v_null (v_int 1) = RErr ETypeError /\
   gd_cmp_iig no_heap CEq CANONICAL_NAN CANONICAL_NAN = ROk (v_bool false) /\
   t_cmp_ff CEq CANONICAL_NAN CANONICAL_NAN = ROk (v_bool false) /\
@@ -375,13 +386,11 @@ Qed.
 Lemma guarded_total_sound_witnesses :
   (gd_arith_ffg no_heap ADiv (v_int 7) (v_int 2) = ROk W_3_5 /\
    g_arith no_heap ADiv (v_int 7) (v_int 2) = ROk (v_int 3)) /\
-  (gd_cmp_iig no_heap CLt v_null (v_int 1) = ROk (v_bool false) /\
-   g_cmp no_heap CLt v_null (v_int 1) = RErr ETypeError) /\
   (gd_cmp_iig no_heap CEq CANONICAL_NAN CANONICAL_NAN = ROk (v_bool false) /\
    g_cmp no_heap CEq CANONICAL_NAN CANONICAL_NAN = ROk (v_bool true)).
 Proof.
-  destruct guarded_counterexamples as (H1 & H2 & H3 & H4 & H5 & _ & H7).
-  exact (conj (conj H1 H2) (conj (conj H3 H4) (conj H5 H7))).
+  destruct guarded_counterexamples as (H1 & H2 & _ & _ & H5 & _ & H7).
+  exact (conj (conj H1 H2) (conj H5 H7)).
 Qed.
 
 Lemma nonvacuous_c06 :
